@@ -541,7 +541,7 @@ C17_ExactAtRest == Quiescent =>
      /\ E.comp = E.succ + E.fail
      /\ E.comp = Cardinality({j \in Jobs : exits[j] >= 1})
      /\ (NoUnknown /\ (\A q \in Queues : ~IsAdapterQ(q)) => E.sub = Cardinality({j \in Jobs : Accepted(j)}))
-     /\ (Gated /\ NoUnknown => \A q \in Queues : ~IsAdapterQ(q) =>
+     /\ (Gated /\ NoUnknown => \A q \in Queues : q \in DOMAIN E.qpending /\ ~IsAdapterQ(q) =>    \* (a queue the episode never got to bind has no length)
             E.qpending[q] = Cardinality({j \in Jobs : QOf(j) = q /\ Accepted(j) /\ ~deqd[j] /\ ~mp[j]})
             \/ \E j \in Jobs : QOf(j) = q /\ mp[j])
 
